@@ -572,6 +572,7 @@ class ProgGen(object):
         self.self_deleted = False
         self.snapshot_done = False
         self.reflexive_using_done = False
+        self.else_ctl_done = False
         self.budget = max_stmts
         self.max_depth = max_depth
         self.params = list(params)            # [(name, ty)]
@@ -1082,6 +1083,8 @@ class ProgGen(object):
             choices += [('if', 14), ('while', 7), ('foreach', 9), ('arith_guard', 3)]
         if self.loop_depth == 0 and self.allow_mutation and self.create_in_loops and not self.snapshot_done:
             choices += [('snapshot', 5)]
+        if depth < self.max_depth and not self.else_ctl_done:
+            choices += [('else_ctl', 4)]
         if self.loop_depth == 0 and self.allow_mutation and self.create_in_loops and self.classes is CLASS_ATTRS \
                 and not self.reflexive_using_done:
             choices += [('reflexive_using', 4)]
@@ -1829,6 +1832,43 @@ class ProgGen(object):
         self.declare(S2, V('set', cls))
         for n in (c0, cin, c1, c2, k):
             self.declare(n, V('integer'))
+        return out
+
+    def st_else_ctl(self, depth):
+        """`break` / `continue` inside an ELSE clause (and nested: an if/else inside an elif, inside an else) of a loop body
+        that has statements AFTER the if: break ends the loop at once, continue skips the rest of the round - from an else
+        clause as from anywhere else"""
+        r = self.rng
+        self.else_ctl_done = True
+        k, n, w = self.fresh('i'), self.fresh('i'), self.fresh('i')
+        lim = r.randint(4, 7)
+        a, b, c = r.sample(range(1, lim + 1), 3)
+        ctl1, ctl2 = [r.choice(['break']), r.choice(['continue'])] if r.random() < 0.5 else [['continue'], ['break']]
+        ctl1, ctl2 = (ctl1 if isinstance(ctl1, list) else [ctl1]), (ctl2 if isinstance(ctl2, list) else [ctl2])
+        bump = lambda v, d: ['assign', v, ['bin', '+', ['var', v], ['int', d]]]
+        eq = lambda v, x: ['bin', '==', ['var', v], ['int', x]]
+        shape = r.choice(['else', 'elif-else', 'else-else'])
+        if shape == 'else':
+            #  if (k == a) n += 10; else  <ctl when k == b, else n += 100>  (ctl in an else of an else)
+            inner = ['if', eq(k, a), [bump(n, 10)], [], [['if', eq(k, b), [bump(n, 1000)], [], [ctl1] if r.random() < 0.5 else
+                                                          [['if', eq(k, c), [ctl1], [], [bump(n, 100)]]]]]]
+        elif shape == 'elif-else':
+            inner = ['if', eq(k, a), [bump(n, 10)], [[eq(k, b), [['if', eq(w, 0), [bump(w, 1)], [], [ctl1]]]]],
+                     [['if', eq(k, c), [ctl2], [], [bump(n, 100)]]]]
+        else:
+            inner = ['if', eq(k, a), [bump(n, 10)], [], [['if', eq(k, b), [bump(n, 20)], [], [['if', eq(k, c), [bump(n, 30)], [], [ctl1]]]]]]
+        body = [bump(k, 1), inner, bump(n, 1)]
+        self.declare(k, V('integer'))
+        self.declare(n, V('integer'))
+        self.declare(w, V('integer'))
+        out = [['assign', k, ['int', 0]], ['assign', n, ['int', 0]], ['assign', w, ['int', 0]]]
+        sets = [v for v in self.vars_of('set') if not self.lookup(v).dead]
+        if sets and r.random() < 0.4:
+            # the same inside a for each (the loop variable is not used: any set will do)
+            lv = self.fresh('e')
+            out.append(['foreach', lv, r.choice(sets), body])
+        else:
+            out.append(['while', ['bin', '<', ['var', k], ['int', lim]], body])
         return out
 
     def st_reflexive_using(self, depth):
